@@ -6,7 +6,7 @@
 import HctlModel.Print
 namespace Hctl
 
-inductive PErr | fuel | syntax
+inductive PErr | fuel | bad
   deriving DecidableEq, Repr, Inhabited
 
 /-- `tokens.iter().position(p)` together with the three pieces `tokens[..i]`, `tokens[i]`, `tokens[i+1..]`. -/
@@ -33,6 +33,18 @@ def lastIsHybrid (pre : List Tok) : Bool :=
   | some t => t.isHybrid
   | none => false
 
+/-- what `parse_9_terminal_and_parentheses` does with its token list: a finished result, or recursion into a group -/
+inductive T9
+  | done (r : Except PErr Tree)
+  | inner (ts : List Tok)
+
+def classify9 : List Tok → T9
+  | [.atom (.prop name)] => .done (.ok (constOrProp name))
+  | [.atom (.var name)] => .done (.ok (.atom (.var name)))
+  | [.atom (.wild name)] => .done (.ok (.atom (.wild name)))
+  | [.group inner] => .inner inner
+  | _ => .done (.error .bad)
+
 mutual
 def parse1 : Nat → List Tok → Except PErr Tree
   | 0, _ => .error .fuel
@@ -40,11 +52,11 @@ def parse1 : Nat → List Tok → Except PErr Tree
     match splitFirst Tok.isHybrid ts with
     | some (pre, .hyb o v d, post) =>
       -- `if i > 0 && !matches!(&tokens[i - 1], HctlToken::Hybrid(..))`
-      if !pre.isEmpty && !lastIsHybrid pre then .error .syntax
+      if !pre.isEmpty && !lastIsHybrid pre then .error .bad
       else match parse1 n post with
         | .ok c => .ok (.hyb o v d c)
         | .error e => .error e
-    | some _ => .error .syntax   -- unreachable!()
+    | some _ => .error .bad   -- unreachable!()
     | none => parse2 n ts
 
 def parse2 : Nat → List Tok → Except PErr Tree
@@ -87,7 +99,7 @@ def parse7 : Nat → List Tok → Except PErr Tree
   | n+1, ts =>
     match splitFirst Tok.isBinTemporal ts with
     | some (pre, .bin o, post) => bin? o (parse8 n pre) (parse7 n post)
-    | some _ => .error .syntax   -- unreachable!()
+    | some _ => .error .bad   -- unreachable!()
     | none => parse8 n ts
 
 def parse8 : Nat → List Tok → Except PErr Tree
@@ -96,21 +108,19 @@ def parse8 : Nat → List Tok → Except PErr Tree
     match splitFirst Tok.isUnary ts with
     | some (pre, .un o, post) =>
       -- `if i > 0` : nothing may precede the first unary operator at this level
-      if !pre.isEmpty then .error .syntax
+      if !pre.isEmpty then .error .bad
       else match parse8 n post with
         | .ok c => .ok (.un o c)
         | .error e => .error e
-    | some _ => .error .syntax   -- unreachable!()
+    | some _ => .error .bad   -- unreachable!()
     | none => parse9 n ts
 
 def parse9 : Nat → List Tok → Except PErr Tree
   | 0, _ => .error .fuel
-  | _+1, [] => .error .syntax
-  | _+1, [.atom (.prop name)] => .ok (constOrProp name)
-  | _+1, [.atom (.var name)] => .ok (.atom (.var name))
-  | _+1, [.atom (.wild name)] => .ok (.atom (.wild name))
-  | n+1, [.group inner] => parse1 n inner
-  | _+1, _ => .error .syntax
+  | n+1, ts =>
+    match classify9 ts with
+    | .done r => r
+    | .inner inner => parse1 n inner
 end
 
 mutual
